@@ -358,6 +358,13 @@ func (db *Database) buildIndexes(table string,
 	if len(newIdxs) == 0 {
 		return nil
 	}
+	// Persist first (the table is exclusive so it will not change)
+	// so the existing indexes have all their entries in their btrees
+	// and no pending layers, like the new btrees will.
+	// Otherwise the new indexes are out of step with the existing ones
+	// and later merges/persists (which treat a table's indexes alike)
+	// leave the new indexes with entries for deleted or updated rows.
+	db.Persist()
 	rt := db.NewReadTran()
 	ti := rt.meta.GetRoInfo(table)
 	if ti.Nrows == 0 {
